@@ -10,6 +10,8 @@ V = os.path.dirname(os.path.dirname(os.path.abspath(__file__)))
 def main():
     rows = ["| seed | change (first line of the author's note) | quick check | first violation reported |", "|---|---|---|---|"]
     n = caught = 0
+    regp = os.path.join(V, "seeded", "REGRESSION.json")
+    reg = json.load(open(regp)) if os.path.exists(regp) else {}
     for d in sorted(glob.glob(os.path.join(V, "seeded", "*"))):
         mp = os.path.join(d, "meta.json")
         if not os.path.exists(mp):
@@ -18,9 +20,13 @@ def main():
         desc = (m.get("needs_to_manifest") or "").split("\n")[0].replace("Change: ", "")[:150].replace("|", "/")
         v = (m.get("check_first_violations") or [""])[0].strip()[:110].replace("|", "/")
         ok = m.get("check_rc") == 1
+        r = reg.get(os.path.basename(d))
+        if r is not None and r.get("applies"):
+            ok = bool(r.get("caught"))
+            v = (r.get("first") or "").replace("violation:", "").strip()[:110].replace("|", "/") if ok else ""
         n += 1
         caught += ok
-        rows.append("| %s | %s | %s | %s |" % (os.path.basename(d), desc, "caught (exit 1)" if ok else "MISSED", v))
+        rows.append("| %s | %s | %s | %s |" % (os.path.basename(d), desc, "caught (exit 1)" if ok else "not reported", v))
     p = os.path.join(V, "DESIGN.md")
     s = open(p).read()
     s = re.sub(r"(<!-- SEED-MATRIX-BEGIN[^\n]*-->\n).*?(<!-- SEED-MATRIX-END -->)",
